@@ -54,6 +54,11 @@ def run(rep: Report, prog: Program, tier: str) -> None:
     enums_truthy(rep, "R9.6", prog, ["redress.errors:ErrorClass", "redress.errors:StopReason"])
     records_transparent(rep, "R9.6", prog, ["redress.policy.types:RetryOutcome"])
     rep.floor("R9.6", 3)
+    rep.rule("R9.7", "the class the breaker is told for an exhausted call() is the final failure's class: the RetryExhaustedError the retry component raises carries last_class = state.last_class whatever caused the stop - exception or result, exhausted or deferred (= the last_class column of C04 R4.3; R9.4 then records exc.last_class)")
+    from .c04 import scheduled_action_fields
+
+    scheduled_action_fields(rep, "R9.7", prog, only=("last_class",))
+    rep.floor("R9.7", 2)
 
 
 def record_by_outcome(rep: Report, r1: str, r2: str, prog: Program) -> None:
